@@ -12,7 +12,7 @@ void harness(void) {
   Obj v = {0}; Type t = {0}; Node n = {0}; Token tok = {0};
   t.kind = nondet_bool_() ? TY_VLA : (nondet_bool_() ? TY_FUNC : TY_INT); t.size = 4;
   v.name = "sym"; v.ty = &t; v.offset = nondet_int_();
-  v.is_local = nondet_bool_(); v.is_tls = nondet_bool_(); v.is_definition = nondet_bool_(); v.is_function = t.kind == TY_FUNC;
+  v.is_local = nondet_bool_(); v.is_tls = nondet_bool_(); v.is_definition = nondet_bool_(); v.is_static = nondet_bool_(); v.is_function = t.kind == TY_FUNC;
   opt_fpic = nondet_bool_();
   ASSUME(t.kind != TY_VLA || v.is_local);          /* VLAs are always local */
   n.kind = ND_VAR; n.var = &v; n.ty = &t; n.tok = &tok; dl_n = 0;
